@@ -12,9 +12,21 @@ CHECKS = {
    'Every token sequence <= 4/5 over the 28-token alphabet, every byte string <= 4/6 over 16 lexer-class representatives and <= 5/7 over 9 UTF-8 fragment bytes, every 1-edit neighbour of every depth-1 tree text, each with and without default field, is run through Parse, ToPostgres, ToParameterizedPostgres and (on accepted trees) String, GoString, json.Marshal under recover, in a build where every statement of the library increments a counter: a panic, a budget overrun (10^7 statements; need < 10^4) or a %! marker is a violation. 3 248 adversarial families frame(block^n) are run for n doubling to 1 024 / 8 192 tokens with exact statement and allocation counts, which must grow at most cubically.',
    "Polynomial time is decided as bounded growth on the enumerated families up to the length bound, not proved asymptotically. Instrumentation is regenerated from /repo's working tree on every run (go build -overlay).",
    "4/C01"),
- "C02": (False, "", "", "", "4/C02"),
- "C03": (False, "", "", "", "4/C03"),
- "C04": (False, "", "", "", "4/C04"),
+ "C02": (True,
+   "bounded exhaustive exploration of both renderers over all concatenations of hostile fragments in every value slot and lexical form plus all accepted token sequences, each output re-read by PostgreSQL's own grammar and scanner (confinement + whitelist reference)",
+   "Every concatenation of <= 2 (thorough 3 on the exposed slots) of 28 hostile fragments is placed in each of 8 slots (equality/comparison value, range bounds, list element, bare term, field name, default-field name) in each lexical form that can carry it (quoted, backslash-escaped, raw word) and rendered inline and parameterised; so is every accepted token sequence <= 4/5 with and without default field. Every successful render is parsed inside SELECT 1 FROM t WHERE (<sql>) by PostgreSQL 15's grammar: one statement, everything but the WHERE clause protobuf-equal to the template, no comment or ; token, only whitelisted node kinds, column references ⊆ names the harness wrote, string constants ⊆ values it wrote, numeric constants equal to its numbers, no user-derived constant in parameterised SQL except the documented '*'.",
+   'Grammar-level only (no analysis-time typing); render errors are acceptable; names and values are known to the harness because it built the query (no reliance on Parse).',
+   "4/C02"),
+ "C03": (True,
+   "bounded exhaustive exploration of the inline renderer over all leaf forms and all trees to a depth bound of the filterable fragment, SQL re-read by PostgreSQL's grammar and evaluated against a Lucene-semantics reference on boundary-hitting probe rows",
+   "Every leaf form of the filterable fragment (85 leaves: equality on ints incl. int64 extremes, decimals, words, phrases; < <= > >= on int/float/string; every bound-kind x inclusivity range incl. open and doubly open; value lists; patterns) is rendered, read back by PostgreSQL's grammar and evaluated on probe rows hitting every region and boundary its constants cut out, against the leaf's Lucene meaning; every depth-1 tree over all leaves, depth-2 over 6 leaves (thorough depth 3 over 2) with NOT + - AND OR is compared, row by row, with the Boolean combination of its leaves' own SQL (the statement's second formulation).",
+   'First-order evaluator with exact decimal arithmetic and code-point order on both sides; non-NULL rows of matching type; the six ledgered leaf-level defects are listed in known_findings.json.',
+   "4/C03"),
+ "C04": (True,
+   "bounded exhaustive exploration of both renderers on all renderable queries of a tree space and all accepted token sequences, differential oracle (parameter list vs generator's values, placeholder count, semantic equivalence on probe rows, text stability under same-kind substitution)",
+   "For every query over the C03 leaves extended with short regexps and one-character patterns at depth <= 1 (value list known to the harness), every tree of T(21,1) ∪ T(6,2) (thorough T(21,2)) and every accepted token sequence <= 4/5, with and without default field: whenever ToPostgres succeeds ToParameterizedPostgres must succeed, carry as many ? as parameters, parameters of kind int/float64/string equal to the query's values left to right (patterns translated, open bounds absent), be readable by PostgreSQL's grammar after rebinding, and evaluate like the inline SQL on every probe row; every single-slot same-kind substitution must leave the SQL text unchanged.",
+   'Equivalence by evaluation (not text). Two ledgered defects (inline %.2f rounding; quoted "*" emitted as constant).',
+   "4/C04"),
  "C05": (True,
    'bounded exhaustive exploration of the real parser over all expression trees up to a depth bound, printed by a stratified-grammar reference printer, compared with the tree built through the public constructors',
    'Every tree of depth <= 2 over 21 leaf forms x 7 unary x 2 binary constructors (2.2e6 trees; thorough adds depth 3 over 3 leaves, 2.9e7), every unary chain to length 4/5 and every binary spine to 4/5 leaves is printed with exactly the parentheses the documented table requires (plus: one redundant pair at each node, fully parenthesised) and parsed by the real Parse; the result must be reflect.DeepEqual to the tree built from the same AST with expr.AND/Eq/Rang/... Nothing sampled.',
@@ -30,7 +42,11 @@ CHECKS = {
    'For every tree of depth <= 2 over 21 leaf forms (thorough: + depth 3 over 2 and 3 leaves) and every binary spine to 5/6 leaves, every non-empty subset of eligible AND nodes is printed as juxtaposition and parsed; it must parse (core gaps) and be DeepEqual to the parse of the explicit-AND text. 4.5e6 texts in the quick tier.',
    'Non-core gaps (after a closing bracket or postfix operator, before ( NOT + -) may be rejected; counted in evidence (rejected_noncore). Depth > 3 outside the bound.',
    "4/C07"),
- "C08": (False, "", "", "", "4/C08"),
+ "C08": (True,
+   'bounded exhaustive exploration of lexer+parser+renderers over all strings up to a length bound in every value slot, oracle = the string itself (tree, PostgreSQL-decoded constant, parameter list)',
+   "Every string of <= 3/4 runes over 27 characters (28 for escaping) is written quoted resp. with a backslash before every special character as equality value, comparison value, either range bound, list element, bare term and field name; the parsed tree must be exactly the tree with that plain string; for quoted strings the inline SQL constant as decoded by PostgreSQL's scanner and the parameter list must contain exactly that string.",
+   'Characters are class representatives; strings Go reads as numbers and the four keywords are excluded from the escaping clause; longer strings are outside the bound.',
+   "4/C08"),
  "C09": (True,
    'bounded exhaustive exploration of the real lexer+parser: all token sequences to a length bound x all whitespace fillings / keyword case patterns / redundant-parenthesis placements, metamorphic oracle between two runs',
    'Every token sequence of length <= 4/5 over the 28-token alphabet (accepted and rejected) is re-laid-out with every uniform filler, every single-gap deviation (thorough: two-gap), leading/trailing whitespace, every case pattern of every keyword; every tree text gets redundant parentheses at the root, at each operand of an explicit operator, around each term value and all at once (with and without default field). Parse outcome must be identical (tree DeepEqual; failure preserved for whitespace/case). 2e7 variants quick.',
